@@ -809,9 +809,6 @@ Proof.
     assert (1 * 10 ^ N.of_nat (length r) <= (b - 48) * 10 ^ N.of_nat (length r)) by (apply N.mul_le_mono_r; lia). lia.
 Qed.
 
-Definition fval_digits (v : fval) : bool :=
-  match v with FDec _ i f => forallb dig i && forallb dig f | _ => true end.
-
 Lemma dec_parts_same i1 f1 i2 f2 :
   forallb dig i1 = true -> forallb dig f1 = true -> forallb dig i2 = true -> forallb dig f2 = true ->
   (bytes_eqb (strip_leading_zeros i1) (strip_leading_zeros i2) && bytes_eqb (trim_end_zeros f1) (trim_end_zeros f2)) =
@@ -990,17 +987,13 @@ Proof.
   destruct (bytes_eqb k name); [reflexivity | apply IH].
 Qed.
 
-Definition value_digits (v : fvalue) : bool := match v with VNumber n => fval_digits (n_value n) | _ => true end.
-
 Section SelectProofs.
 Variable rules : ntype -> rules_fn.
 Variable f64_from_str : bytes -> option fval.
 (* what std's float parser returns is a number the exact-decimal model can hold (digits only) *)
 Hypothesis parser_digits : forall s v, f64_from_str s = Some v -> fval_digits v = true.
 
-(* the scope after a key test: unchanged except for the memoizer, which only grows and holds only `rules ty` *)
-Definition cache_step (sc sc' : scope) : Prop :=
-  sc' = set_intls sc (sc_intls sc') /\ cache_ok rules (sc_intls sc') /\ cache_extends (sc_intls sc) (sc_intls sc').
+Local Notation cache_step := (NumberSpec.cache_step rules).
 
 Lemma set_intls_same sc : set_intls sc (sc_intls sc) = sc.
 Proof. now destruct sc. Qed.
